@@ -174,10 +174,38 @@ class _TAny(Ty):
     def wrap(self, term, loc=None):
         return SymAny(term)
 
+    _inj = {}
+    _objs = {}
+
+    def _f(self, name, sort):
+        if name not in self._inj:
+            self._inj[name] = z3.Function("any_of_" + name, sort, AnySort)
+        return self._inj[name]
+
     def unwrap(self, v):
+        """Any value can be stored in an opaque slot: typed values are injected by an
+        (injective) tag function, unmodelled Python objects become one constant per object."""
         if isinstance(v, SymAny):
             return v.t
-        raise OutOfReach(f"{type(v).__name__} stored where an opaque Any is declared")
+        if v is None:
+            return z3.Const("any_none", AnySort)
+        if isinstance(v, (SymBool, bool)):
+            return self._f("bool", z3.BoolSort())(to_z3_bool(v))
+        if isinstance(v, (SymInt, int)):
+            return self._f("int", z3.IntSort())(num_term(v)[0])
+        if isinstance(v, (SymReal, float)):
+            if isinstance(v, float) and v != v or v in (float("inf"), float("-inf")):
+                return z3.Const(f"any_float_{v}", AnySort)
+            return self._f("real", z3.RealSort())(num_term(v)[0])
+        if isinstance(v, (SymStr, str)):
+            return self._f("str", z3.StringSort())(Str.unwrap(v))
+        ref = getattr(v, "_ref", None)
+        if ref is not None and hasattr(v, "_cls"):
+            return self._f("ref", z3.IntSort())(ref)
+        k = id(v)
+        if k not in self._objs:
+            self._objs[k] = (v, z3.Const(f"any_obj{len(self._objs)}", AnySort))
+        return self._objs[k][1]
 
     def concretize(self, model, term):
         return "any:" + str(model.eval(term, model_completion=True))
@@ -221,6 +249,52 @@ class Opt(Ty):
         if z3.is_true(model.eval(self.dt.is_none(v), model_completion=True)):
             return None
         return self.inner.concretize(model, self.dt.val(v))
+
+
+class _RealInf(Opt):
+    """float that may be +inf (capacities, limits): inf | finite real"""
+
+    def __init__(self):
+        Opt.__init__(self, Real)
+        self.name = "RealInf"
+
+    def wrap(self, term, loc=None):
+        v = Opt.wrap(self, term, loc)
+        return float("inf") if v is None else v
+
+    def unwrap(self, v):
+        if isinstance(v, float) and v == float("inf"):
+            return self.dt.none
+        return self.dt.some(Real.unwrap(v))
+
+    def concretize(self, model, term):
+        v = Opt.concretize(self, model, term)
+        return float("inf") if v is None else v
+
+
+class _IntInf(Opt):
+    """a limit that is +inf (float('inf')) or an integer count (capacities): inf | int.
+    Using it for a float-annotated capacity field is the configuration assumption "capacities are
+    integral or infinite"."""
+
+    def __init__(self):
+        Opt.__init__(self, Int)
+        self.name = "IntInf"
+
+    def wrap(self, term, loc=None):
+        v = Opt.wrap(self, term, loc)
+        return float("inf") if v is None else v
+
+    def unwrap(self, v):
+        if isinstance(v, float) and v == float("inf"):
+            return self.dt.none
+        if isinstance(v, float) and v == int(v):
+            v = int(v)
+        return self.dt.some(Int.unwrap(v))
+
+    def concretize(self, model, term):
+        v = Opt.concretize(self, model, term)
+        return float("inf") if v is None else v
 
 
 def _mangle(s):
@@ -326,7 +400,14 @@ class Fn(Ty):
     def sort(self):
         return z3.IntSort()
 
+    # callables created by the code under test (closures, bound methods) get a concrete negative
+    # id and are returned as themselves when read back; symbolic ids denote unknown callables
+    _table = {}
+
     def wrap(self, term, loc=None):
+        term = z3.simplify(term)
+        if z3.is_int_value(term) and term.as_long() in Fn._table:
+            return Fn._table[term.as_long()]
         ret = self.returns
         nm = self._n
 
@@ -342,8 +423,21 @@ class Fn(Ty):
         if t is not None:
             return t
         if callable(v):
-            return _c().fresh("fnval", z3.IntSort())
+            n = -(len(Fn._table) + 1)
+            Fn._table[n] = v
+            try:
+                v._pyvc_fn_term = z3.IntVal(n)
+            except AttributeError:
+                pass
+            return z3.IntVal(n)
         raise OutOfReach(f"{type(v).__name__} stored where a callable is declared")
+
+    def assume_wf(self, term):
+        _c().assume(term > 0)       # unknown callables: positive ids (never alias a known closure)
 
     def concretize(self, model, term):
         return "<callable>"
+
+
+RealInf = _RealInf()
+IntInf = _IntInf()
